@@ -175,6 +175,110 @@ def native_fd(u, vals):
     if not (big < 1e150 and big == big): return False, "degenerate model"
     return worst > 1e-3 * big, "native variational acceleration differs from the finite difference of the real acceleration by %.3g (scale %.3g)" % (worst, big)
 
+EL6 = ['a', 'e', 'inc', 'Omega', 'omega', 'f']
+CLASSICAL = ['e', 'inc', 'Omega', 'omega', 'f', 'e_e', 'inc_inc', 'Omega_Omega', 'omega_omega', 'f_f', 'a_e', 'a_inc', 'a_Omega', 'a_omega', 'a_f', 'e_inc', 'e_Omega', 'e_omega', 'e_f',
+             'm_e', 'inc_Omega', 'inc_omega', 'inc_f', 'm_inc', 'omega_Omega', 'Omega_f', 'm_Omega', 'omega_f', 'm_omega', 'm_f']
+
+class DerivTrig(Deriv):
+    """adds d sin(t) = cos(t) dt, d cos(t) = -sin(t) dt on the domain's paired trigonometric atoms"""
+    def _d(s, t):
+        if z3.is_app(t) and t.decl().kind() == z3.Z3_OP_UNINTERPRETED and t.num_args() == 1 and t.decl().name() in ('sin', 'cos'):
+            sn, cs = s.dom.sincos(t.arg(0))
+            return (cs if t.decl().name() == 'sin' else -sn) * s.d(t.arg(0))
+        return Deriv._d(s, t)
+
+def run_constructor(u):
+    """element-derivative constructors (classical elements): reb_particle_derivative_<p>[_<q>] against the symbolic (mixed second)
+    derivative of the real reb_particle_from_orbit_err with respect to the same element(s).  reb_orbit_from_particle inside the
+    constructor is replaced by a stub returning the symbolic elements (the inverse map is C11's subject)."""
+    name = u['name']; rep = Report(); label = "derivative constructor %s " % name
+    L = build.layout(); psz = L.structs['reb_particle']['size']
+    def run(ctx):
+        dom = Real(); I = new_interp(dom, ctx)
+        S = {k: z3.Real(k) for k in EL6 + ['G', 'mp', 'm']}
+        for c_ in (S['G'] > 0, S['mp'] > 0, S['m'] >= 0, S['a'] > 0, S['e'] >= 0, S['e'] < 1): ctx.assume(c_)
+        def orbit_stub(I_, out, G, p, prim):
+            ov = SimView(I_, out, 'reb_orbit')
+            for k in EL6: ov.set(k, S[k])
+            return None
+        I.stubs['@reb_orbit_from_particle'] = orbit_stub
+        prim = I.mem.alloc(psz, 'prim', 'harness', zero=True); SimView(I, prim, 'reb_particle').set('m', S['mp'])
+        po = I.mem.alloc(psz, 'po', 'harness', zero=True); SimView(I, po, 'reb_particle').set('m', S['m'])
+        out = I.mem.alloc(psz, 'out', 'harness', zero=True)
+        I.call('@reb_particle_derivative_' + name, [out, S['G'], prim, po])
+        got = {c: dom.z(SimView(I, out, 'reb_particle').get(c)) for c in C7}
+        ref = I.mem.alloc(psz, 'ref', 'harness', zero=True); err = I.mem.alloc(4, 'err', 'harness', zero=True)
+        I.call('@reb_particle_from_orbit_err', [ref, S['G'], prim, S['m']] + [S[k] for k in EL6] + [err])
+        e_ = I.mem.load(err, I32)
+        base = {c: SimView(I, ref, 'reb_particle').get(c) for c in C7} if e_ == 0 else None
+        return I, dom, S, got, base, e_
+    ex = Explorer(run, max_paths=64, timeout_ms=3000); ex.explore()
+    rep.queries += ex.nqueries; rep.solver_time += ex.qtime
+    prover = Prover(t_inproc_ms=u.get('t_ms', 20000), use_external=True, t_ext_s=u.get('t_ext', 30))
+    acc = 0
+    for ctx, (I, dom, S, got, base, e_) in ex.results:
+        rep.paths += 1; rep.add_interp(I)
+        if e_ != 0: continue
+        acc += 1
+        exprs = {c: dom.z(v) for c, v in base.items()}
+        for v in name.split('_'):
+            D = DerivTrig(dom, [(S[v], z3.RealVal(1))])
+            exprs = {c: D.d(e) for c, e in exprs.items()}
+        ob = Obligations(rep, prover, label)
+        assum = list(ctx.pc) + [b != 0 for b in dom.divs] + list(dom.side)
+        def on_sat(model, S=S):
+            vals = {k: float(model_value(model, t) or 0.0) for k, t in S.items()}
+            ok, detail = native_constructor(name, vals)
+            return ok, 'C16:constructor:%s' % name, detail, dict(kind='constructor', name=name, vals=vals)
+        for c in C7:
+            ob.prove("%s == d%s(from_orbit.%s)" % (c, ''.join('/d' + v for v in name.split('_')), c), got[c] == exprs[c], assum, axioms=dom.axioms, on_sat=on_sat, domain='REAL + trig atoms + symbolic differentiation')
+        ob.witness("accepting path", assum, axioms=dom.axioms)
+    if not acc: rep.vacuous.append(label + "no accepting path of reb_particle_from_orbit_err")
+    bad, detail = native_constructor(name, None); rep.replays += 1
+    if bad: rep.violations.append(dict(key='C16:constructor:%s' % name, what=detail, replay=dict(kind='constructor', name=name, vals=None), obligation=label + 'native twin'))
+    return rep
+
+def native_constructor(name, vals):
+    """native: the constructor against central (mixed second) finite differences of the native reb_particle_from_orbit, at the model's
+    element values when they describe a regular ellipse, and at two generic systems (G = 1 and G = 4 pi^2)"""
+    import c11, math
+    N_ = nat(); psz = N_.psize
+    class Pt(ctypes.Structure): _fields_ = [('b', ctypes.c_ubyte * psz)]
+    def F(G, mp, v):
+        err, p = c11.native_particle(G, mp, v['m'], v['a'], v['e'], v['inc'], v['Omega'], v['omega'], v['f'])
+        return None if err else [p[c] for c in C7]
+    def Dn(G, mp, v):
+        err, p = c11.native_particle(G, mp, v['m'], v['a'], v['e'], v['inc'], v['Omega'], v['omega'], v['f'])
+        f = getattr(N_.lib, 'reb_particle_derivative_' + name); f.restype = Pt; f.argtypes = [ctypes.c_double, Pt, Pt]
+        prim = Pt(); NView(N_, ctypes.addressof(prim), 'reb_particle').set('m', mp)
+        po = Pt(); pv = NView(N_, ctypes.addressof(po), 'reb_particle')
+        for c, x in p.items(): pv.set(c, x)
+        out = f(G, prim, po); ov = NView(N_, ctypes.addressof(out), 'reb_particle')
+        return [ov.get(c) for c in C7]
+    def FD(G, mp, v):
+        vs = name.split('_')
+        if len(vs) == 1:
+            h = 1e-6 * max(1.0, abs(v[vs[0]])); a = dict(v); b = dict(v); a[vs[0]] += h; b[vs[0]] -= h
+            return [(x - y) / (2 * h) for x, y in zip(F(G, mp, a), F(G, mp, b))]
+        h = 1e-4
+        if vs[0] == vs[1]:
+            a = dict(v); a[vs[0]] += h; b = dict(v); b[vs[0]] -= h
+            return [(x - 2 * y + z) / (h * h) for x, y, z in zip(F(G, mp, a), F(G, mp, v), F(G, mp, b))]
+        def sh(s1, s2):
+            w = dict(v); w[vs[0]] += s1 * h * max(1.0, abs(v[vs[0]])); w[vs[1]] += s2 * h * max(1.0, abs(v[vs[1]])); return F(G, mp, w)
+        den = 4 * h * h * max(1.0, abs(v[vs[0]])) * max(1.0, abs(v[vs[1]]))
+        return [(a - b - c + d) / den for a, b, c, d in zip(sh(1, 1), sh(1, -1), sh(-1, 1), sh(-1, -1))]
+    trials = [(1.0, 1.0, dict(m=1e-3, a=1.3, e=0.3, inc=0.4, Omega=0.7, omega=1.1, f=2.0)), (4 * math.pi ** 2, 0.8, dict(m=2e-3, a=0.7, e=0.55, inc=2.1, Omega=4.0, omega=0.3, f=5.1))]
+    if vals and 0.05 < vals.get('e', 0) < 0.9 and 1e-3 < vals.get('a', 0) < 1e3 and 1e-6 < vals.get('G', 0) < 1e6 and 1e-6 < vals.get('mp', 0) < 1e6 and 0 <= vals.get('m', 0) < 1e3:
+        trials.insert(0, (vals['G'], vals['mp'], {k: vals[k] for k in ('m', 'a', 'e', 'inc', 'Omega', 'omega', 'f')}))
+    bad = []; worst = 0.0
+    for G, mp, v in trials:
+        d = Dn(G, mp, v); f_ = FD(G, mp, v)
+        sc = max(abs(x) for x in f_) + max(abs(x) for x in d) + 1e-300
+        e = max(abs(a - b) for a, b in zip(d, f_)) / sc; worst = max(worst, e)
+        if e > 1e-4: bad.append((dict(G=G, mp=mp, **v), d, f_))
+    return bool(bad), "native reb_particle_derivative_%s vs finite differences of reb_particle_from_orbit: %s" % (name, ("differs: elements %r constructor %r finite difference %r" % bad[0]) if bad else "agree (worst relative difference %.1e)" % worst)
+
 def native_var(u):
     import random
     rnd = random.Random(3); N = u['N']; L = nat().L
@@ -239,9 +343,11 @@ def run_rescale(u):
     return rep
 
 def worker(u):
+    if u['what'] == 'constructor': return run_constructor(u)
     return run_rescale(u) if u['what'] == 'rescale' else run_force(u)
 
 def replay(data):
+    if data.get('kind') == 'constructor': return native_constructor(data['name'], data['vals'])
     return native_fd(data['unit'], data['vals'])
 
 def main():
@@ -252,12 +358,13 @@ def main():
     # test particles (N_active < N): active-active, active-testparticle loops and the testparticle_type=1 back-reaction
     us += [dict(what='force', gravity='BASIC', N=2, order=1, na=1, tpt=0), dict(what='force', gravity='BASIC', N=2, order=1, na=1, tpt=1), dict(what='force', gravity='BASIC', N=2, order=2, na=1, tpt=0, t_ms=30000, ext=True)]
     if tier == 'thorough': us.append(dict(what='force', gravity='BASIC', N=3, order=1, na=2, tpt=0, t_ms=120000, ext=True))
+    for nm in (['e', 'inc', 'Omega', 'omega', 'f', 'e_e', 'a_e', 'e_f', 'm_e', 'm_f', 'inc_Omega', 'omega_f'] if tier == 'quick' else CLASSICAL): us.append(dict(what='constructor', name=nm, t_ms=15000 if tier == 'quick' else 90000, t_ext=20 if tier == 'quick' else 120))
     if tier == 'thorough': us += [dict(what='force', gravity='BASIC', N=3, order=1, t_ms=60000, ext=True), dict(what='force', gravity='BASIC', N=3, order=2, t_ms=120000, ext=True)]
     rep = run_units(us, worker)
     code = finish(PID, tier, rep, t0,
         bounds=dict(real_particles='2' if tier == 'quick' else '2..3', orders=[1, 2], gravity=['BASIC', 'COMPENSATED'], test_particles='N_active in {N, N-1}, testparticle_type 0/1 (first order), 0 (second order)'),
         assumptions=['real arithmetic; no coincident particles', 'differentiation rules d inv(b) = -inv(b)^2 db, d sqrt(A) = dA/(2 sqrt(A)) (the only non-ring atoms in the force terms)'],
-        outside=['the integrators\' tangent maps (WHFast Kepler step derivatives, IAS15/BS propagation): agreement with finite differences over tens of orbits', 'the 65 orbital-element derivative constructors of derivatives.c', 'test-particle variations (var_config.testparticle >= 0), gravity_ignore_terms != 0', 'automatic rescaling (reb_simulation_rescale_var)', 'MEGNO -> 2 and Lyapunov -> 0 on regular orbits (long-run numerical statements)'],
+        outside=['the integrators\' tangent maps (WHFast Kepler step derivatives, IAS15/BS propagation): agreement with finite differences over tens of orbits', 'the 35 Pal-element derivative constructors (a, lambda, h, k, ix, iy and their pairs; they go through the iterative reb_tools_solve_kepler_pal); of the 30 classical ones the quick tier covers 12', 'test-particle variations (var_config.testparticle >= 0), gravity_ignore_terms != 0', 'automatic rescaling (reb_simulation_rescale_var)', 'MEGNO -> 2 and Lyapunov -> 0 on regular orbits (long-run numerical statements)'],
         domain_note='REAL + symbolic differentiation; z3 NRA with inv/sqrt atoms')
     sys.exit(code)
 
